@@ -279,14 +279,19 @@ func runC10(tier string, seed uint64) {
 				}
 				k := c10Keys[rng.Intn(len(c10Keys))]
 				w := rng.Intn(100)
-				if j < len(c10Scratch)+1 {
+				forceForm := false
+				if j < len(c10Scratch)+2 {
 					// every history opens by storing the names a careless backend might use for the scratch copy of
-					// an upload of "n", and then uploads "n": they are keys of their own
+					// an upload of "n", then uploads "n" (they are keys of their own), then uploads "/lead" through
+					// the browser form ("lead" is another key)
 					b, w = buckets[0], 0
-					if j < len(c10Scratch) {
+					switch {
+					case j < len(c10Scratch):
 						k = c10Scratch[j]
-					} else {
+					case j == len(c10Scratch):
 						k = "n"
+					default:
+						k, forceForm = "/lead", true
 					}
 				}
 				ek := k
@@ -308,8 +313,13 @@ func runC10(tier string, seed uint64) {
 					if rng.Intn(5) == 0 {
 						body = []byte{} // a zero-byte object is an object, not an empty directory
 					}
-					r = s.Put(b, k, body, m)
-					if r.Status == 200 {
+					if forceForm || (rng.Intn(5) == 0 && j >= len(c10Scratch)+2) {
+						// the same upload as a browser form: the key travels in a form field, byte for byte
+						r = s.PostForm(b, k, body, m)
+					} else {
+						r = s.Put(b, k, body, m)
+					}
+					if r.Status >= 200 && r.Status < 300 {
 						stored[b] = append(stored[b], k)
 					}
 				case w < 55:
